@@ -8,6 +8,7 @@ import typing as T
 from ..core import Module, Repo, Undecided, AnchorMissing, norm, short, attr_chain
 from ..report import RuleCtx
 from ..consteval import fold_expr, Regex
+from .. import rx
 from .c01_sym import sym_paths, is_call, show, subterms
 from .c01_parser import MPARSER, mro_cached
 from .c01_ops import LexTables, _guarded, HOLDERS, DECOR, _strip_calls
@@ -44,65 +45,163 @@ def documented_escapes(ctx: RuleCtx) -> T.List[str]:
     return out
 
 
-def escape_samples(doc: T.List[str]) -> T.Tuple[T.Set[str], T.Dict[str, T.List[str]], T.Dict[str, T.List[str]]]:
-    """single-character escapes, positive samples and negative samples per parametrised form."""
+HEX = frozenset('0123456789abcdefABCDEF')
+OCT = frozenset('01234567')
+INF = 'inf'
+ASCII = [chr(c) for c in range(32, 127)]
+
+
+def escape_reference(doc: T.List[str]) -> T.Set[T.Tuple[T.Any, ...]]:
+    """Documented escape forms as (literal prefix, character set, min, max, literal suffix)."""
     singles: T.Set[str] = set()
-    pos: T.Dict[str, T.List[str]] = {}
-    neg: T.Dict[str, T.List[str]] = {}
+    out: T.Set[T.Tuple[T.Any, ...]] = set()
     for e in doc:
+        if not e.startswith('\\'):
+            raise Undecided(f'Syntax.md documents an escape that does not start with a backslash: {e}')
         body = e[1:]
         if len(body) == 1:
             singles.add(body)
-        elif body == 'ooo':
-            pos[e] = ['\\7', '\\17', '\\177', '\\000']
-            neg[e] = ['\\8', '\\9', '\\1234']
-        elif body == 'xhh':
-            pos[e] = ['\\x4f', '\\xA0']
-            neg[e] = ['\\x4', '\\xg0', '\\X41']
-        elif body == 'uxxxx':
-            pos[e] = ['\\u12aB']
-            neg[e] = ['\\u12a', '\\u12ag']
-        elif body == 'Uxxxxxxxx':
-            pos[e] = ['\\U0001f600']
-            neg[e] = ['\\U0001f60', '\\U0001f60g']
+        elif set(body) == {'o'}:
+            out.add(('\\', OCT, 1, len(body), ''))                   # "up to three octal digits are accepted"
+        elif body[0] in 'xuU' and set(body[1:]) in ({'h'}, {'x'}):
+            out.add(('\\' + body[0], HEX, len(body) - 1, len(body) - 1, ''))
         elif body == 'N{name}':
-            pos[e] = ['\\N{DASH}', '\\N{LATIN SMALL LETTER A}']
-            neg[e] = ['\\N{}', '\\N{DASH', '\\NDASH', '\\n{DASH}x']
+            out.add(('\\N{', ('not', frozenset('}')), 1, INF, '}'))
         else:
             raise Undecided(f'Syntax.md documents an escape form this rule does not know: {e}')
-    return singles, pos, neg
+    if singles:
+        out.add(('\\', frozenset(singles), 1, 1, ''))
+    return out
+
+
+def escape_alternatives(reg: Regex) -> T.Set[T.Tuple[T.Any, ...]]:
+    """The alternatives of the escape regex in the same normal form (read off re._parser's tree; no matching is run)."""
+    c = rx.sre_c
+
+    def charset(items: T.Any) -> T.Any:
+        items = list(items)
+        if items and items[0][0] is c.NEGATE:
+            rest = items[1:]
+            if all(op is c.LITERAL for op, _ in rest):
+                return ('not', frozenset(chr(av) for _, av in rest))
+            raise Undecided('negated character class with ranges in the escape regex')
+        return frozenset(rx.class_chars(items, ASCII))
+    def expand(items: T.List[T.Any]) -> T.List[T.List[T.Any]]:
+        # re._parser factors a common literal prefix out of an alternation and wraps groups: undo both
+        items = list(items)
+        if len(items) == 1 and items[0][0] is c.SUBPATTERN:
+            return expand(list(items[0][1][3]))
+        for k, (op, av) in enumerate(items):
+            if op is c.BRANCH:
+                res: T.List[T.List[T.Any]] = []
+                for b in av[1]:
+                    res.extend(expand(items[:k] + list(b) + items[k + 1:]))
+                return res
+            if op is c.SUBPATTERN:
+                return expand(items[:k] + list(av[3]) + items[k + 1:])
+        return [items]
+    out: T.Set[T.Tuple[T.Any, ...]] = set()
+    for items in expand(list(rx.parse(reg.pattern, reg.flags))):
+        i = 0
+        pre = ''
+        while i < len(items) and items[i][0] is c.LITERAL:
+            pre += chr(items[i][1])
+            i += 1
+        if i >= len(items):
+            raise Undecided(f'escape regex alternative {pre!r} has no variable part')
+        op, av = items[i]
+        if op is c.IN:
+            body = (charset(av), 1, 1)
+        elif op in (c.MAX_REPEAT, c.MIN_REPEAT):
+            lo, hi, sub = av
+            sub = list(sub)
+            if len(sub) == 1 and sub[0][0] is c.IN:
+                cs = charset(sub[0][1])
+            elif len(sub) == 1 and sub[0][0] is c.NOT_LITERAL:
+                cs = ('not', frozenset(chr(sub[0][1])))
+            else:
+                raise Undecided('escape regex alternative repeats something other than a character class')
+            body = (cs, lo, INF if hi is c.MAXREPEAT else hi)
+        else:
+            raise Undecided(f'escape regex alternative with construct {op}')
+        i += 1
+        suf = ''
+        while i < len(items) and items[i][0] is c.LITERAL:
+            suf += chr(items[i][1])
+            i += 1
+        if i != len(items):
+            raise Undecided('escape regex alternative has more than prefix / class / suffix')
+        out.add((pre, body[0], body[1], body[2], suf))
+    return out
+
+
+def _fmt_esc(d: T.Tuple[T.Any, ...]) -> str:
+    pre, cs, lo, hi, suf = d
+    if isinstance(cs, tuple):
+        cls = '[^' + ''.join(sorted(cs[1])) + ']'
+    elif cs == HEX:
+        cls = '<hex>'
+    elif cs == OCT:
+        cls = '<octal>'
+    else:
+        cls = '[' + ''.join(sorted(cs)) + ']'
+    rep = '' if (lo, hi) == (1, 1) else f'{{{lo},{hi}}}' if lo != hi else f'{{{lo}}}'
+    return f'{pre}{cls}{rep}{suf}'
 
 
 def r7(ctx: RuleCtx) -> None:
     repo = ctx.repo
     mod = repo.module(MPARSER)
     lt = LexTables(ctx)
-    # (a) which token kinds are multi-line strings, and how much of the token text is delimiter
-    kinds = {"'a b'": ('string', False), "f'a b'": ('fstring', False), "'''a\nb'''": ('multiline_string', True), "f'''a\nb'''": ('multiline_fstring', True)}
-    for text, (want, ml) in kinds.items():
-        tid, v = lt.lex1(text + '\n')
-        ctx.require(tid == want and v == text, f'{text!r} is one {want} token', mod, 'Lexer.__init__', f'lexing of {text!r}', f'{text!r} is lexed as ({tid}, {v!r}); reference: one {want} token',
-                    lt.nodes['self.token_specification'])
+    # (a) the four string token kinds: delimiters read off the specification regexes (literal prefix / suffix),
+    #     `multiline` in the token id <=> triple-quote delimiters, `fstring` in the id <=> f prefix
+    strings = sorted(fold_expr(repo, mod, ast.Name(id='ALL_STRINGS', ctx=ast.Load())))
+    ctx.floor('string token kinds (ALL_STRINGS)', len(strings), 4)
+    delim: T.Dict[str, T.Tuple[str, str]] = {}
+    for tid in strings:
+        i = lt.index(tid)
+        if i is None:
+            ctx.violation(mod, 'Lexer.__init__', f'string token kind {tid} has no specification', f'ALL_STRINGS names the token kind {tid}, which token_specification does not define', lt.nodes['self.token_specification'])
+            continue
+        r = lt.spec[i][1]
+        items = list(rx.parse(r.pattern, r.flags))
+        pre = rx.literal_prefix(items)
+        suf = rx.literal_prefix(list(reversed(items)))[::-1]
+        delim[tid] = (pre, suf)
+        want_pre = ('f' if 'fstring' in tid else '') + ("'''" if 'multiline' in tid else "'")
+        want_suf = "'''" if 'multiline' in tid else "'"
+        ctx.require((pre, suf) == (want_pre, want_suf), f'{tid}: delimiters {want_pre} ... {want_suf}', mod, 'Lexer.__init__', f'{tid}: regex delimiters {pre!r} ... {suf!r}',
+                    f'the specification of {tid} is delimited by {pre!r} ... {suf!r}; a token id containing `multiline` must be the triple-quoted form and `fstring` the f-prefixed one '
+                    f'(reference {want_pre!r} ... {want_suf!r}): StringNode decides escape decoding from the token id', lt.nodes['self.token_specification'])
+    # the longer delimiter must be tried first: ''' before ', f' before identifiers
+    for first, second in (('multiline_string', 'string'), ('multiline_fstring', 'fstring'), ('fstring', 'id'), ('multiline_fstring', 'id')):
+        i, j = lt.index(first), lt.index(second)
+        if i is None or j is None:
+            continue
+        ctx.require(i < j, f'specification {first} is tried before {second}', mod, 'Lexer.__init__', f'order of {first} / {second}',
+                    f'{second} is tried before {first}: its regex matches a prefix of every {first} literal, so such literals would be split', lt.nodes['self.token_specification'])
     fn = mod.func('Lexer.lex')
     strips: T.Dict[str, T.Tuple[int, int]] = {}
     for st, guards in _guarded(fn.body, []):
-        if isinstance(st, ast.Assign) and norm(st.targets[0]) == 'value' and isinstance(st.value, ast.Subscript) and norm(st.value.value) == 'value' and isinstance(st.value.slice, ast.Slice):
+        if isinstance(st, ast.Assign) and isinstance(st.targets[0], ast.Name) and isinstance(st.value, ast.Subscript) and norm(st.value.value) == st.targets[0].id \
+                and isinstance(st.value.slice, ast.Slice):
             sets = []
-            for g, val in guards:
-                ge = ast.parse(g, mode='eval').body
-                if val and isinstance(ge, ast.Compare) and len(ge.ops) == 1 and isinstance(ge.ops[0], ast.In) and norm(ge.left) == 'tid' and isinstance(ge.comparators[0], ast.Set):
-                    sets.append({e.value for e in ge.comparators[0].elts if isinstance(e, ast.Constant)})
+            for ge, val in guards:
+                if val and isinstance(ge, ast.Compare) and len(ge.ops) == 1 and isinstance(ge.ops[0], ast.In) and isinstance(ge.left, ast.Name) and isinstance(ge.comparators[0], ast.Set):
+                    sets.append((ge.left.id, {e.value for e in ge.comparators[0].elts if isinstance(e, ast.Constant)}))
             if len(sets) != 1:
                 continue
-            for tid in sets[0]:
-                lo = fold_expr(repo, mod, st.value.slice.lower, env={'tid': tid}) if st.value.slice.lower is not None else 0
-                hi = fold_expr(repo, mod, st.value.slice.upper, env={'tid': tid}) if st.value.slice.upper is not None else 0
+            var, tids = sets[0]
+            for tid in tids:
+                lo = fold_expr(repo, mod, st.value.slice.lower, env={var: tid}) if st.value.slice.lower is not None else 0
+                hi = fold_expr(repo, mod, st.value.slice.upper, env={var: tid}) if st.value.slice.upper is not None else 0
                 strips[tid] = (lo, hi)
-    for tid in ('string', 'fstring', 'multiline_string', 'multiline_fstring'):
-        opening = ('f' if 'fstring' in tid else '') + ("'''" if 'multiline' in tid else "'")
-        want = (len(opening), -(3 if 'multiline' in tid else 1))
+    if not strips:
+        raise Undecided('Lexer.lex: delimiter stripping `value = value[a:b]` under `tid in {...}` not recognised')
+    for tid, (pre, suf) in sorted(delim.items()):
+        want = (len(pre), -len(suf))
         ctx.require(strips.get(tid) == want, f'{tid}: the token value is the text between the delimiters {want}', mod, 'Lexer.lex', f'{tid}: value slice {strips.get(tid)}',
-                    f'the value of a {tid} token is text[{strips.get(tid)}]; the delimiters are {opening!r} ... so it must be text[{want[0]}:{want[1]}]', fn)
+                    f'the value of a {tid} token is text[{strips.get(tid)}]; its regex delimiters are {pre!r} ... {suf!r}, so it must be text[{want[0]}:{want[1]}]', fn)
     # (b) StringNode decodes iff (escape requested and) not multiline
     init = mod.func('StringNode.__init__')
     ps = [a.arg for a in init.args.args[1:]]
@@ -151,34 +250,22 @@ def r7(ctx: RuleCtx) -> None:
     ctx.require(ok, 'decode_match decodes the matched text with unicode_escape', mod, 'decode_match', 'decode_match body', 'decode_match does not decode the match with unicode_escape', dm)
     # (c) the escape regex accepts exactly the documented escapes
     doc = documented_escapes(ctx)
-    singles, pos, neg = escape_samples(doc)
+    want = escape_reference(doc)
     reg = fold_expr(repo, mod, ast.Name(id='ESCAPE_SEQUENCE_SINGLE_RE', ctx=ast.Load()))
     if not isinstance(reg, Regex):
         raise Undecided('ESCAPE_SEQUENCE_SINGLE_RE is not a compiled regex')
     node = mod.assign_value('ESCAPE_SEQUENCE_SINGLE_RE')
-    # concrete membership questions are put to the stdlib regex engine on the folded pattern
-    # (sa.rx approximates counted repeats above 6, e.g. [0-9A-Fa-f]{8}; engine gap, worked around here)
-    try:
-        compiled = re.compile(reg.pattern, reg.flags)
-    except re.error as e:
-        raise Undecided(f'ESCAPE_SEQUENCE_SINGLE_RE does not compile: {e}')
-
-    def full(s: str) -> bool:
-        return compiled.fullmatch(s) is not None
-    got_singles = set()
-    for c in map(chr, range(32, 127)):
-        if full('\\' + c):
-            got_singles.add(c)
-    octal = set('01234567') if any(e[1:] == 'ooo' for e in doc) else set()
-    ctx.require(got_singles == singles | octal, f'single-character escapes are exactly {sorted(singles)} (+ octal digits)', mod, '<module>', f'ESCAPE_SEQUENCE_SINGLE_RE singles {sorted(got_singles - octal)}',
-                f'the regex decodes backslash + {sorted(got_singles - octal)}; Syntax.md documents {sorted(singles)}: '
-                f'undocumented {sorted(got_singles - singles - octal)}, missing {sorted((singles | octal) - got_singles)}', node)
-    for e, samples in pos.items():
-        bad = [s for s in samples if not full(s)]
-        ctx.require(not bad, f'documented escape `{e}` is decoded', mod, '<module>', f'ESCAPE_SEQUENCE_SINGLE_RE misses {e}', f'the documented escape {e} is not matched (e.g. {bad})', node)
-    for e, samples in neg.items():
-        bad = [s for s in samples if full(s)]
-        ctx.require(not bad, f'malformed `{e}` is left alone', mod, '<module>', f'ESCAPE_SEQUENCE_SINGLE_RE over-accepts near {e}', f'the regex also decodes {bad}, which is not of the documented form {e}', node)
+    got = escape_alternatives(reg)
+    ctx.floor('escape forms documented in Syntax.md', len(doc), 14)
+    for d in sorted(want - got, key=_fmt_esc):
+        near = [g for g in got if g[0] == d[0]]
+        ctx.violation(mod, '<module>', f'ESCAPE_SEQUENCE_SINGLE_RE lacks {_fmt_esc(d)}',
+                      f'Syntax.md documents the escape form {_fmt_esc(d)}; the regex has {[_fmt_esc(g) for g in near] or "no alternative with this prefix"}', node)
+    for g in sorted(got - want, key=_fmt_esc):
+        ctx.violation(mod, '<module>', f'ESCAPE_SEQUENCE_SINGLE_RE decodes {_fmt_esc(g)}', f'the regex decodes {_fmt_esc(g)}, which is not a documented escape form '
+                      f'(documented: {sorted(_fmt_esc(w) for w in want)})', node)
+    for d in sorted(want & got, key=_fmt_esc):
+        ctx.ok(f'escape form {_fmt_esc(d)} is decoded exactly as documented')
     # (d) dict.keys() is sorted
     dmod = repo.module(HOLDERS['DictHolder'])
     km = None
@@ -325,10 +412,16 @@ def r8(ctx: RuleCtx) -> None:
                 ctx.require(why is None, f'{ty}.{name}: @{base} above the method tag keeps the tag visible', m, qn, f'{ty}.{name}: @{base} hides the tag', f'{why}: the meson_method tag of {qn} is lost and the method is never registered', fn)
     # the registration mechanism itself: __init_subclass__ collects functions carrying the tag set by InterpreterObject.method
     bm = repo.module('mesonbuild/interpreterbase/baseobjects.py')
-    mfn = bm.func('InterpreterObject.method.decorator')
-    ok = any(isinstance(s, ast.Assign) and norm(s.targets[0]) == 'f.meson_method' and norm(s.value) == 'name' for s in mfn.body) and \
-        any(isinstance(s, ast.Return) and norm(s.value) == 'f' for s in mfn.body)
-    ctx.require(ok, 'InterpreterObject.method tags the function with meson_method = name and returns it', bm, 'InterpreterObject.method', 'method tag decorator', 'the method tag decorator changed', mfn)
+    outer = bm.func('InterpreterObject.method')
+    inner = [s_ for s_ in outer.body if isinstance(s_, ast.FunctionDef)]
+    if len(inner) != 1 or len(inner[0].args.args) != 1 or len(outer.args.args) != 1:
+        raise Undecided('InterpreterObject.method: not a one-argument decorator factory')
+    mfn = inner[0]
+    fp, np_ = mfn.args.args[0].arg, outer.args.args[0].arg
+    ok = any(isinstance(s_, ast.Assign) and norm(s_.targets[0]) == f'{fp}.meson_method' and norm(s_.value) == np_ for s_ in mfn.body) and \
+        any(isinstance(s_, ast.Return) and norm(s_.value) == fp for s_ in mfn.body)
+    ctx.require(ok, 'InterpreterObject.method tags the function with meson_method = name and returns it', bm, 'InterpreterObject.method', 'method tag decorator', 'the method tag decorator no longer sets meson_method to the given name on the function it returns', mfn)
     isc = bm.func('InterpreterObject.__init_subclass__')
-    stores = [n for n in ast.walk(isc) if isinstance(n, ast.Assign) and norm(n.targets[0]) == 'cls.METHODS[method.meson_method]' and norm(n.value) == 'method']
+    stores = [n for n in ast.walk(isc) if isinstance(n, ast.Assign) and isinstance(n.targets[0], ast.Subscript) and norm(n.targets[0].value) == 'cls.METHODS'
+              and isinstance(n.targets[0].slice, ast.Attribute) and n.targets[0].slice.attr == 'meson_method' and norm(n.targets[0].slice.value) == norm(n.value)]
     ctx.require(len(stores) == 1, '__init_subclass__ registers every tagged function under its tag', bm, 'InterpreterObject.__init_subclass__', 'METHODS registration', 'METHODS registration changed', isc)
